@@ -79,7 +79,7 @@ prop('C17', prefix=['c17'],
      outside='computed values (the rename re-evaluates; values are not compared), defined names, duplicate_sheet, formulas with function calls, other names')
 prop('C18', prefix=['c18'],
      bounds='one cell at a symbolic position holding one of: the numbers 1.5 / 123 / -0.25 / 1234567.5, TRUE, FALSE, the text abc, the quote-prefixed texts '
-            '123 / TRUE / #N/A / 1,5, an empty styled cell; default, bold or percent-formatted style; en and de locale (hand-built), en language',
+            '123 / TRUE / #N/A / 1,5, an empty styled cell; default, bold or percent-formatted style; en and de locale (hand-built), en language; the same cells after one of TRUE / 12 / abc / \'x was typed over them (en)',
      outside='other numbers (the float->text conversion is executed for concrete values only), dates and date formats, formulas, localized booleans/errors '
              '(es/fr/de/it languages: the known VERDADERO defect lives there), UserModel wrappers')
 prop('C19', prefix=['c19'],
